@@ -126,61 +126,64 @@ func checkC01(c *Ctx) {
 			// revision argument
 			ro := m.Origins(args[2])
 			c.check(ro.all(func(k string) bool { return k == "field:"+m.Revision }), "R3", "refresh presents the revision field", op.Call, "origins of the revision argument: %s", ro)
-			// the load instruction(s) of the revision field in the loop function and their lock context
-			var revLoad, claimLoad, tokenLoad *ssa.Call
-			eachInstr(rf, func(in ssa.Instruction) {
-				call, ok := in.(*ssa.Call)
-				if !ok {
-					return
-				}
-				h := la.MustBefore(call)
-				locked := h[m.implMuR()] || h[m.implMuW()]
-				if m.isAtomicLoadOf(call, m.Revision) && locked {
-					revLoad = call
-				}
-				if m.isClaimLoadSym(m.Sym.Of(call)) && locked {
-					claimLoad = call
-				}
-				if o := m.Origins(call); locked && o["field:"+m.Token] && !m.isAtomicLoadOf(call, m.Revision) {
-					tokenLoad = call
-				}
-			})
-			// the load that actually feeds the Update must be that locked one
-			for _, ld := range m.OriginLoads(args[2]) {
+			// the loads that feed the revision argument, the claim test guarding the attempt and the
+			// token: all made under the election mutex, in one function (one critical section)
+			locked := func(ld *ssa.Call) bool {
 				h := la.MustBefore(ld)
-				if !(h[m.implMuR()] || h[m.implMuW()]) {
-					revLoad = nil
-				}
+				return h[m.implMuR()] || h[m.implMuW()]
 			}
-			c.check(revLoad != nil && claimLoad != nil, "R3", "revision and claim read in one critical section", op.Call,
-				"revision load under the election mutex: %v; claim load under the same mutex: %v (a revision read apart from the claim may be an observed one: C01-R4)", revLoad != nil, claimLoad != nil)
-			// the goroutine issuing the Update is spawned under that claim load == true
-			var goSite *ssa.Go
-			eachInstr(rf, func(in ssa.Instruction) {
-				if g, ok := in.(*ssa.Go); ok {
-					for _, t := range m.funcValueTargets(g.Call.Value) {
-						if t == op.Fn {
-							goSite = g
+			revLoads := m.OriginLoads(args[2])
+			revOK := len(revLoads) > 0
+			var section *ssa.Function
+			for _, ld := range revLoads {
+				if !locked(ld) {
+					revOK = false
+				}
+				section = ld.Parent()
+			}
+			// the guard at the point where the attempt is issued
+			var at ssa.Instruction = op.Call
+			if op.Fn != rf {
+				eachInstr(rf, func(in ssa.Instruction) {
+					if g, ok := in.(*ssa.Go); ok {
+						for _, t := range m.funcValueTargets(g.Call.Value) {
+							if t == op.Fn {
+								at = g
+							}
 						}
 					}
+				})
+			}
+			claimOK := false
+			for _, l := range m.GuardsAt(at) {
+				if !l.Truth || l.S.V == nil {
+					continue
 				}
-			})
-			if op.Fn == rf {
-				// Update issued inline
-				gs := m.GuardsAt(op.Call)
-				c.check(claimLoad != nil && hasLit(gs, true, func(s *Sym) bool { return s.V == ssa.Value(claimLoad) }), "R3", "refresh only under the claim read with the revision", op.Call, "guards %s", fmtLits(gs))
-			} else if goSite == nil {
-				c.undecided("R3", "refresh only under the claim read with the revision", op.Call, "the goroutine issuing the Update was not found")
-			} else {
-				gs := m.GuardsAt(goSite)
-				c.check(claimLoad != nil && hasLit(gs, true, func(s *Sym) bool { return s.V == ssa.Value(claimLoad) }), "R3", "refresh only under the claim read with the revision", goSite, "guards at the go statement: %s", fmtLits(gs))
+				cands := m.OriginLoads(l.S.V)
+				if call, ok := l.S.V.(*ssa.Call); ok {
+					cands = append(cands, call)
+				}
+				for _, ld := range cands {
+					if m.isClaimLoadSym(m.Sym.Of(ld)) && locked(ld) && ld.Parent() == section {
+						claimOK = true
+					}
+				}
+			}
+			c.check(revOK && claimOK, "R3", "revision and claim read in one critical section", op.Call,
+				"the revision presented comes from loads under the election mutex: %v; the attempt is guarded by a claim read true under the mutex in the same function (%s): %v (a revision read apart from the claim may be an observed one: C01-R4)", revOK, shortFn(section), claimOK)
+			tokLoads := m.OriginLoadsField(args[1], "Token")
+			tokenOK := len(tokLoads) > 0
+			for _, ld := range tokLoads {
+				if !locked(ld) || ld.Parent() != section {
+					tokenOK = false
+				}
 			}
 			// payload
 			ido := m.FieldOrigins(args[1], "ID")
 			c.check(ido.all(func(k string) bool { return k == "cfg:InstanceID" }), "R3", "refresh publishes the configured id", op.Call, "origins of payload.ID: %s", ido)
 			to := m.FieldOrigins(args[1], "Token")
 			c.check(to["field:"+m.Token] && to.all(func(k string) bool { return k == "field:"+m.Token || k == `const:""` }), "R3", "refresh republishes the term token", op.Call, "origins of payload.Token: %s", to)
-			c.check(tokenLoad != nil, "R3", "token read in the same critical section", op.Call, "token field read under the election mutex in the refresh loop: %v", tokenLoad != nil)
+			c.check(tokenOK, "R3", "token read in the same critical section", op.Call, "every load feeding payload.Token is under the election mutex in %s: %v", shortFn(section), tokenOK)
 			// stored back on success
 			stored := false
 			eachInstr(rf, func(in ssa.Instruction) {
@@ -232,13 +235,8 @@ func checkC01(c *Ctx) {
 			}
 		}
 		c.check(wasLeader, "R6", "Delete only if the stop cleared a standing claim in "+fn, op.Call, "guards %s", fmtLits(gs))
-		var clear ssa.Instruction
-		eachInstr(op.Fn, func(in ssa.Instruction) {
-			if val, isConst, ok := m.claimStore(in); ok && isConst && !val {
-				clear = in
-			}
-		})
-		c.check(clear != nil && dominatesInstr(clear, op.Call), "R6", "claim cleared before Delete in "+fn, op.Call, "claim Store(false) dominates the Delete")
+		clear := m.clearPoint(op.Fn, op.Call)
+		c.check(clear != nil, "R6", "claim cleared before Delete in "+fn, op.Call, "a claim Store(false) (or a call of a function that always clears the claim) dominates the Delete: %v", clear != nil)
 		// ownership verdict
 		var verdict *ssa.Call
 		for _, l := range gs {
